@@ -253,7 +253,11 @@ class Interp:
         rec = self.facts.hir.get(cal) or getattr(self.facts, 'hir_all', {}).get(cal)
         if rec is None or getattr(self, '_depth', 0) > 6:
             return None
-        B = hirq.Body(self.facts, rec)
+        # (the index of a body is read-only and depends on the record alone: built once per callee and fact set)
+        bodies = self.facts.__dict__.setdefault('_inline_bodies', {})
+        B = bodies.get(id(rec))
+        if B is None:
+            B = bodies[id(rec)] = hirq.Body(self.facts, rec)
         sub = Interp(self.facts, B, self.summaries, self.unroll, self.inline, self.field_hook, self.for_once, self.result_combinators, self.combinators, self.generic_loops,
                      self.domain, self.local_try, self.places)
         sub._depth = getattr(self, '_depth', 0) + 1
@@ -561,6 +565,7 @@ class Interp:
     # is *now*, and a mutating call on the local is a store to the place.
     OPTION_REBORROWS = ('as_mut', 'as_ref', 'as_deref', 'as_deref_mut')       # Option<T> place -> Option<&T>: same place
     OPTION_PAYLOADS = ('unwrap', 'expect', 'unwrap_unchecked')                # -> the payload of the good variant
+    OPTION_INSERTERS = ('insert', 'get_or_insert', 'get_or_insert_with', 'get_or_insert_default')   # -> the payload of the option they leave Some
 
     def place_of(self, e, depth=0):
         """The place a place expression denotes (a term rooted in a parameter), or None.  Purely structural."""
@@ -582,6 +587,10 @@ class Interp:
             if good is not None and name in self.OPTION_PAYLOADS:
                 b = self.place_of(e['recv'], depth + 1)
                 return ('variant', b, good, 0) if b is not None else None
+            if good == 'Some' and name in self.OPTION_INSERTERS:
+                # insert / get_or_insert*: the `&mut T` they return points at the payload of the option they were called on
+                b = self.place_of(e['recv'], depth + 1)
+                return ('variant', b, 'Some', 0) if b is not None else None
         if k == 'Try':
             b = self.place_of(e['e'], depth + 1)
             good = 'Some' if (e['e'].get('ty') or '').startswith('core::option::Option') else 'Ok'
@@ -673,6 +682,19 @@ class Interp:
                     outs.append(Out('val', ('lit', a[1][lo:hi]), s))
                 else:
                     outs.append(Out('div', UNIT, s.event(('panic', 'slice index out of range', (a, b), e))))
+            elif a[0] == 'lit' and isinstance(a[1], str) and b[0] == 'struct' and b[1].rsplit('::', 1)[-1] in ('RangeFrom', 'RangeTo', 'Range', 'RangeFull') \
+                    and all(v[0] == 'lit' and isinstance(v[1], int) for n_, v in b[2]):
+                # `s[a..b]` of a known str: byte offsets into its UTF-8 encoding; panics when out of range or not on a character
+                # boundary (std, `impl Index<Range..> for str`), else the sub-string
+                enc = a[1].encode('utf-8')
+                fl = dict(b[2])
+                lo = fl['start'][1] if 'start' in fl else 0
+                hi = fl['end'][1] if 'end' in fl else len(enc)
+                boundary = lambda k: k == len(enc) or (0 <= k < len(enc) and (enc[k] & 0xC0) != 0x80)
+                if 0 <= lo <= hi <= len(enc) and boundary(lo) and boundary(hi):
+                    outs.append(Out('val', ('lit', enc[lo:hi].decode('utf-8')), s))
+                else:
+                    outs.append(Out('div', UNIT, s.event(('panic', 'str slice index out of range / not a char boundary', (a, b), e))))
             elif ((self.exact_seqs and a[0] == 'vec' and ground(a)) or a[0] == 'array') and b[0] == 'lit' and isinstance(b[1], int) and not isinstance(b[1], bool):
                 # an array expression (or, with exact_seqs, a vector whose elements are all known) at a literal position: that element,
                 # or the bounds-check panic
@@ -1226,6 +1248,13 @@ class Interp:
         if lhs['k'] == 'Unary' and lhs.get('op') == 'Deref':
             inner = hirq.peel_refs(lhs['e'])
             if inner['k'] == 'Path' and inner.get('res') == 'local':
+                P = self.ref_place(inner['bind'])
+                base = self.env_place(P[1], st) if P is not None and P[0] == 'field' else None
+                if base is not None:
+                    # `*r = v` where r is a `&mut` local bound once to a place expression (`let r = &mut self.x;`): a store to that
+                    # place, whatever the place holds by now
+                    place = ('field', self.place_value(base, st), P[2])
+                    return [Out('val', UNIT, st.store(place, val).event(('store', place, val, node)))]
                 cur = st.env.get(inner['bind'])
                 if cur is not None and cur[0] == 'field':
                     # `*r = v` where r was bound to a place (`let (a, b) = &mut *guard`): a store through the reference
@@ -1350,44 +1379,178 @@ class Interp:
                     else:
                         outs.append(Out('val', ('call', self.TAKE, (old,), e.get('id')), s2))
                 else:
-                    s2 = s1.store(place, nv).event(('call', cal, (old, nv), e))
+                    # mem::replace(&mut place, v) = { let old = read(place); write(place, v); old } for every place and v: the call is
+                    # recorded as before, and the write it amounts to as the same 'store' event an assignment `place = v` leaves
+                    s2 = s1.store(place, nv).event(('call', cal, (old, nv), e)).event(('store', place, nv, e))
                     outs.append(Out('val', old, s2))
+        return outs
+
+    # ------------------------------------------------------------------ Option methods that write through `&mut self`
+    # One model per method, each std's definition (core::option) read as an update of the place the method is called on; `old` is what
+    # the place holds before the call.  Where the definition depends on whether `old` is Some and that is not known, the path forks
+    # on ('is', old, 'Some'), so the place afterwards holds what std says for every prior value:
+    #   replace(v)              = mem::replace(self, Some(v)):        place := Some(v), returns old
+    #   insert(v)               = { *self = Some(v); payload }:       place := Some(v), returns (a `&mut` to) v
+    #   get_or_insert(v)        = { if let None = self { *self = Some(v) }; payload }:  old Some(x): place unchanged, returns x -
+    #                             old None: place := Some(v), returns v   (v is the caller's argument: evaluated in both cases)
+    #   get_or_insert_with(f)   the same with v = f(), f called only when old is None
+    #   get_or_insert_default() the same with v = T::default()
+    #   take()                  = mem::replace(self, None):           place := None, returns old
+    #   take_if(p)              = if self.as_mut().map_or(false, p) { self.take() } else { None }:  old Some(x) and p(&mut x):
+    #                             place := None, returns old - otherwise place unchanged, returns None
+    # A write is recorded exactly as the assignment `place = value` would be (a 'store' event for a field, 'assign-local' for a
+    # local); a case that leaves the place alone records nothing but the test in the path condition.  (`*place = Some(v)` is the
+    # assignment itself, mem::replace(&mut place, Some(v)) is modelled in mem_take.)
+    OPTION = 'core::option::Option::<T>::'
+    OPTION_WRITERS = ('replace', 'insert', 'get_or_insert', 'get_or_insert_with', 'get_or_insert_default', 'take', 'take_if')
+
+    def env_place(self, P, st):
+        """The structural place P (rooted in a parameter, see place_of) as the term that the field expressions of this body evaluate
+        to on this path: the parameter is what the environment binds it to (itself, unless the body is evaluated for a caller's
+        argument).  None for a place with an Option payload in it."""
+        if P[0] == 'param':
+            for b, d in self.body.defs.items():
+                if d['kind'] == 'param' and not d['proj'] and d['name'] == P[1]:
+                    return st.env.get(b, P)
+            return P
+        if P[0] == 'field':
+            b = self.env_place(P[1], st)
+            return None if b is None else ('field', b, P[2])
+        return None
+
+    def option_targets(self, recv, st):
+        """What the receiver expression of a `&mut self` method of Option denotes: ([(target, state)], abnormal outcomes) with target
+          ('field', place)   a field of a value the path has evaluated (`self.x`, `conn.ldap.x`, `s.x` for a local struct s), also
+                             through a `&mut` local bound once to such a place expression (`let o = &mut self.x; o.replace(v)`);
+          ('local', b)       a local that holds the Option by value, also through `&mut` locals that stand for it (referent_local);
+        None for anything else (a `&mut Option` parameter, a reference obtained from a call, ...): no model, the call stays opaque."""
+        r = hirq.peel_refs(recv)
+        if r['k'] == 'Field':
+            tg, abn = [], []
+            for o in self.ev(r['e'], st):
+                if o.kind != 'val':
+                    abn.append(o); continue
+                tg.append((('field', ('field', o.val, r['name'])), o.st))
+            return tg, abn
+        if r['k'] == 'Path' and r.get('res') == 'local':
+            d = self.body.defs.get(r['bind'])
+            ty = ((d or {}).get('pat') or {}).get('ty') or r.get('ty') or ''
+            if ty.startswith('&mut '):
+                P = self.ref_place(r['bind'])
+                if P is not None and P[0] == 'field':
+                    base = self.env_place(P[1], st)
+                    if base is not None:
+                        return [(('field', ('field', self.place_value(base, st), P[2])), st)], []
+                    return None
+                b = self.referent_local(r['bind'])
+                bd = self.body.defs.get(b)
+                if b == r['bind'] or bd is None or not (((bd.get('pat') or {}).get('ty')) or '').startswith('core::option::Option<'):
+                    return None
+                return ([(('local', b), st)], []) if b in st.env else None
+            if ty.startswith('core::option::Option<') and d is not None and d['kind'] != 'param' and r['bind'] in st.env:
+                return [(('local', r['bind']), st)], []
+        return None
+
+    def place_value(self, t, st):
+        """the value a place term (a parameter, or a chain of fields below one) holds on this path"""
+        if t[0] == 'field':
+            return self.read_field(self.place_value(t[1], st), t[2], st)
+        return t
+
+    def option_read(self, tg, st):
+        return self.read_field(tg[1][1], tg[1][2], st) if tg[0] == 'field' else st.env[tg[1]]
+
+    def option_write(self, tg, val, st, node):
+        if tg[0] == 'field':
+            return st.store(tg[1], val).event(('store', tg[1], val, node))
+        return st.set(tg[1], val).event(('assign-local', tg[1], val, node))
+
+    def option_cases(self, old, st):
+        """[(is Some, payload | None, state)]: the cases of an Option value - one when the term or the path condition decides it"""
+        if old[0] == 'ctor' and old[1] in ('Some', 'None'):
+            return [(old[1] == 'Some', old[2][0] if old[2] else None, st)]
+        kt = st.variant_test(old, 'Some', ['Some', 'None'])
+        cases = []
+        if kt != 'no':
+            cases.append((True, ('variant', old, 'Some', 0), st if kt == 'yes' else st.assume(('is', old, 'Some'), True)))
+        if kt != 'yes':
+            cases.append((False, None, st if kt == 'no' else st.assume(('is', old, 'Some'), False)))
+        return cases
+
+    def option_writer(self, cal, e, st):
+        """The models listed above; None when the receiver is not a place this interpreter keeps track of."""
+        name = cal[len(self.OPTION):]
+        nargs = {'replace': 1, 'insert': 1, 'get_or_insert': 1, 'get_or_insert_with': 1, 'get_or_insert_default': 0, 'take': 0, 'take_if': 1}[name]
+        if len(e['args']) != nargs:
+            return None
+        tgs = self.option_targets(e['recv'], st)
+        if tgs is None:
+            return None
+        NONE = ('ctor', 'None', ())
+        some = lambda v: ('ctor', 'Some', (v,))
+        outs = list(tgs[1])
+        for tg, s0 in tgs[0]:
+            res, abn = self.seq(e['args'], s0)
+            outs.extend(abn)
+            for vals, s in res:
+                old = self.option_read(tg, s)
+                if name == 'replace':
+                    outs.append(Out('val', old, self.option_write(tg, some(vals[0]), s, e)))
+                elif name == 'insert':
+                    outs.append(Out('val', vals[0], self.option_write(tg, some(vals[0]), s, e)))
+                elif name == 'take':
+                    # (recorded as the interpreter always has recorded a take: the call event, and - when it is not known what the
+                    # place held - the term TAKE(old) as the value; see sem.untake / sem.taken_from)
+                    s2 = (s.store(tg[1], NONE) if tg[0] == 'field' else s.set(tg[1], NONE)).event(('call', cal, (old,), e))
+                    outs.append(Out('val', old if old[0] == 'ctor' and old[1] in ('Some', 'None') else ('call', cal, (old,), e.get('id')), s2))
+                elif name == 'take_if':
+                    for is_some, inner, s1 in self.option_cases(old, s):
+                        if not is_some:
+                            outs.append(Out('val', NONE, s1)); continue
+                        for o in self.apply(vals[0], [inner], e, s1):
+                            if o.kind != 'val':
+                                outs.append(o); continue
+                            for truth, s3 in self.decide(o.val, o.st):
+                                outs.append(Out('val', some(inner), self.option_write(tg, NONE, s3, e)) if truth else Out('val', NONE, s3))
+                else:
+                    for is_some, inner, s1 in self.option_cases(old, s):
+                        if is_some:
+                            outs.append(Out('val', inner, s1))
+                        elif name == 'get_or_insert':
+                            outs.append(Out('val', vals[0], self.option_write(tg, some(vals[0]), s1, e)))
+                        elif name == 'get_or_insert_with':
+                            for o in self.apply(vals[0], [], e, s1):
+                                outs.append(Out('val', o.val, self.option_write(tg, some(o.val), o.st, e)) if o.kind == 'val' else o)
+                        else:
+                            v = default_term(hirq.strip_refs(e.get('ty') or ''))
+                            outs.append(Out('val', v, self.option_write(tg, some(v), s1, e)))
         return outs
 
     def ev_MethodCall(self, e, st):
         cal = callee_of(e) or ('<method %s>' % e.get('name'))
-        if cal == 'core::option::Option::<T>::take' and not e['args']:
+        if cal.startswith(self.OPTION) and cal[len(self.OPTION):] in self.OPTION_WRITERS:
+            r = self.option_writer(cal, e, st)
+            if r is not None:
+                return r
+        if self.exact_seqs and not e['args'] and (cal == 'core::iter::traits::iterator::Iterator::next' or cal.endswith(' as core::iter::traits::iterator::Iterator>::next')):
+            # it.next() on a local iterator whose remaining items are all known (the pieces of a split literal, the octets of a literal
+            # byte string): Some(first remaining item) and the local holds the rest afterwards; None (and no change) when nothing is
+            # left - Iterator::next by definition, for every iterator that yields its items front to back.  A `&mut` alias is followed
+            # to the local it names; an alias that cannot be followed has no model (the ordinal cursor below applies).
             recv = hirq.peel_refs(e['recv'])
-            if recv['k'] == 'Field':
-                outs = []
-                for o in self.ev(recv['e'], st):
-                    if o.kind != 'val':
-                        outs.append(o); continue
-                    place = ('field', o.val, recv['name'])
-                    old = self.read_field(o.val, recv['name'], o.st)
-                    s2 = o.st.store(place, ('ctor', 'None', ())).event(('call', cal, (old,), e))
-                    if old[0] == 'ctor' and old[1] in ('Some', 'None'):
-                        outs.append(Out('val', old, s2))
-                    else:
-                        outs.append(Out('val', ('call', cal, (old,), e.get('id')), s2))
-                return outs
-        if cal == 'core::option::Option::<T>::get_or_insert_with' and len(e['args']) == 1 and self.combinators:
-            recv = hirq.peel_refs(e['recv'])
-            if recv['k'] == 'Path' and recv.get('res') == 'local':
-                cur = st.env.get(recv['bind'])
-                if cur is not None and cur[0] == 'ctor' and cur[1] == 'Some':
-                    return [Out('val', cur[2][0], st)]
-                if cur is not None and cur[0] == 'ctor' and cur[1] == 'None':
-                    outs = []
-                    for o0 in self.ev(e['args'][0], st):
-                        if o0.kind != 'val':
-                            outs.append(o0); continue
-                        for o in self.apply(o0.val, [], e, o0.st):
-                            if o.kind == 'val':
-                                outs.append(Out('val', o.val, o.st.set(recv['bind'], ('ctor', 'Some', (o.val,)))))
-                            else:
-                                outs.append(o)
-                    return outs
+            if recv['k'] == 'Path' and recv.get('res') == 'local' and recv['bind'] in st.env:
+                b0 = recv['bind']
+                b = self.referent_local(b0)
+                d0 = self.body.defs.get(b0) or {}
+                aliased = ((d0.get('pat') or {}).get('ty') or '').startswith('&mut ') and b == b0
+                cur = st.env.get(b)
+                if not aliased and cur is not None and (cur[0] in ('vec', 'array') or (cur[0] == 'lit' and isinstance(cur[1], bytes))):
+                    els = self.literal_elems(cur)
+                    if els is not None:
+                        if not els:
+                            return [Out('val', ('ctor', 'None', ()), st)]
+                        rest = ('lit', cur[1][1:]) if cur[0] == 'lit' else ('vec', tuple(els[1:]))
+                        return [Out('val', ('ctor', 'Some', (els[0],)), st.set(b, rest).event(('call', cal, (cur,), e)))]
         if cal.endswith('alloc::vec::Vec::<T, A>::push') and len(e['args']) == 1:
             tgt = self.vec_target(e['recv'])
             if tgt is not None:
@@ -1437,6 +1600,22 @@ class Interp:
             r = self.vec_mutator(cal, e, st)
             if r is not None:
                 return r
+        if cal.endswith('alloc::vec::Vec::<T, A>::truncate') and len(e['args']) == 1 and not self.places:
+            # vec.truncate(n) with a known n on a local vector whose elements are all listed (known octets, pushed / appended elements):
+            # the first n elements remain (std: "keeping the first len elements"; no effect when n >= the length)
+            recv = hirq.peel_refs(e['recv'])
+            if recv['k'] == 'Path' and recv.get('res') == 'local':
+                res, abn = self.seq(e['args'], st)
+                outs, handled = list(abn), True
+                for (k,), s1 in res:
+                    old = s1.env.get(recv['bind'], ('unk', 'vec'))
+                    els = listed_elems(old)
+                    if els is not None and k[0] == 'lit' and isinstance(k[1], int) and not isinstance(k[1], bool) and k[1] >= 0:
+                        outs.append(Out('val', UNIT, s1.set(recv['bind'], ('vec', tuple(els[:k[1]]))).event(('call', cal, (old, k), e))))
+                    else:
+                        handled = False
+                if handled:
+                    return outs
         if cal.endswith('alloc::vec::Vec::<T, A>::insert') and len(e['args']) == 2:
             # vec.insert(k, x) on a vector whose elements are known, at a literal position
             recv = hirq.peel_refs(e['recv'])
@@ -2248,6 +2427,54 @@ ASCII_CLASSES = {
     'is_ascii_control': _cls((0x00, 0x1f), 0x7f),
 }
 
+def default_value(ty):
+    """`<T as Default>::default()` for the types whose default is a known value: an empty Vec, the empty string (String, &str,
+    Cow<str>), the empty slice (&[T]: `impl Default for &[T]` is `&[]`); any other type: the opaque ('default', type)"""
+    if ty.startswith('alloc::vec::Vec<'):
+        return ('vec', ())
+    if ty in ('alloc::string::String', '&str') or (ty.startswith('alloc::borrow::Cow<') and ty.endswith(' str>')):
+        return ('lit', '')
+    if ty == '&[u8]':
+        return ('lit', b'')
+    return ('default', ty)
+
+def parse_int_radix(text, radix, signed):
+    """`<int>::from_str_radix(text, radix)` as std defines it (core::num, `from_str_radix`): an empty string is an error; one leading
+    `+` is accepted for every integer type and one leading `-` for the signed ones, and a sign with nothing after it is an error;
+    every remaining character must be a digit of the radix (`char::to_digit(radix)`: 0-9, then a-z / A-Z without regard to case,
+    value < radix) - no whitespace, no underscore, no second sign; the value is accumulated in the target type (overflow is an
+    error: decided by the caller from the returned number).  Returns the number, or None for an error.  Works on the octets of
+    the str, as std does (an octet >= 0x80 is no digit)."""
+    b = text.encode('utf-8') if isinstance(text, str) else bytes(text)
+    if not b:
+        return None
+    neg = False
+    if b[:1] == b'+' or (b[:1] == b'-' and signed):
+        neg = b[:1] == b'-'
+        b = b[1:]
+        if not b:
+            return None
+    n = 0
+    for c in b:
+        d = char_digit(c, radix)
+        if d is None:
+            return None
+        n = n * radix + d
+    return -n if neg else n
+
+def char_digit(code, radix):
+    """`char::to_digit(radix)` of the character with this code point (std: '0'..='9' are 0..9, 'a'..='z' and 'A'..='Z' are 10..35;
+    Some(d) exactly when d < radix) - None otherwise.  (radix > 36 panics in std: not asked here.)"""
+    if 0x30 <= code <= 0x39:
+        d = code - 0x30
+    elif 0x61 <= code <= 0x7a:
+        d = code - 0x61 + 10
+    elif 0x41 <= code <= 0x5a:
+        d = code - 0x41 + 10
+    else:
+        return None
+    return d if d < radix else None
+
 def ground(t):
     """t is a completely known value: a literal, or a vector / array / tuple / constructor of completely known values"""
     if t[0] == 'lit':
@@ -2257,6 +2484,25 @@ def ground(t):
     if t[0] == 'ctor':
         return all(ground(x) for x in t[2])
     return False
+
+def listed_elems(t):
+    """The element terms, in order, of a tracked vector term whose length is known: literal octets, a vector of listed elements, such
+    a vector + one pushed element, + the elements of another such sequence (extend / extend_from_slice); None otherwise."""
+    if t[0] == 'lit' and isinstance(t[1], bytes):
+        return [('lit', x) for x in t[1]]
+    if t[0] in ('vec', 'array'):
+        return list(t[1])
+    if t[0] == 'vecpush':
+        a = listed_elems(t[1])
+        return a + [t[2]] if a is not None else None
+    if t[0] == 'concat':
+        a, b = listed_elems(t[1]), listed_elems(t[2])
+        return a + b if a is not None and b is not None else None
+    return None
+
+def default_term(ty):
+    """(one definition: see default_value)"""
+    return default_value(ty)
 
 def vec_truncate(c, n):
     """The content of vector term c after truncate(n)."""
@@ -2511,6 +2757,8 @@ def builtin_summary(I, cal, args, node, st):
         v = args[0]
         if v[0] == 'ctor' and v[1] in ('Some', 'Ok'):
             return [Out('val', v[2][0], st)]
+        if v[0] == 'ctor' and v[1] in ('None', 'Err') and name == 'unwrap_or_default':
+            return [Out('val', default_value(node.get('ty') or ''), st)]       # the Default of the payload type
         if v[0] == 'ctor' and v[1] in ('None', 'Err') and name != 'unwrap_or_default':
             return [Out('div', UNIT, st.event(('panic', cal, tuple(args), node)))]
         good = 'Some' if is_opt else 'Ok'
@@ -2597,8 +2845,7 @@ def builtin_summary(I, cal, args, node, st):
                 elif name == 'unwrap_or_else':
                     outs.extend(I.apply(args[1], [] if is_opt else [inner], node, s))
                 else:
-                    ty = node.get('ty') or ''
-                    outs.append(Out('val', ('vec', ()) if ty.startswith('alloc::vec::Vec<') else (('lit', '') if ty in ('alloc::string::String', '&str') or (ty.startswith('alloc::borrow::Cow<') and ty.endswith(' str>')) else ('default', ty)), s))
+                    outs.append(Out('val', default_value(node.get('ty') or ''), s))
             elif name in ('ok_or', 'ok_or_else'):
                 if var == good:
                     outs.append(Out('val', ('ctor', 'Ok', (inner,)), s))
@@ -2723,6 +2970,55 @@ def builtin_summary(I, cal, args, node, st):
                         k = verdicts.index(False) if False in verdicts else len(octs)
                         res_ = octs[k:] if name == 'skip_while' else octs[:k]
                     return [Out('val', ('lit', res_), s)]
+    if name == 'from_str_radix' and len(args) == 2 and args[0][0] == 'lit' and isinstance(args[0][1], str) and args[1][0] == 'lit' \
+            and isinstance(args[1][1], int) and not isinstance(args[1][1], bool) and 2 <= args[1][1] <= 36:
+        # <int>::from_str_radix(known str, known radix): see parse_int_radix; Ok(n) when the target type holds n, Err otherwise
+        m_ = re.match(r'core::num::<impl ([iu])(8|16|32|64|128|size)>::from_str_radix$', cal)
+        if m_:
+            bits = 64 if m_.group(2) == 'size' else int(m_.group(2))
+            lo_, hi_ = (-(1 << (bits - 1)), (1 << (bits - 1)) - 1) if m_.group(1) == 'i' else (0, (1 << bits) - 1)
+            n_ = parse_int_radix(args[0][1], args[1][1], m_.group(1) == 'i')
+            if n_ is not None and lo_ <= n_ <= hi_:
+                return [Out('val', ('ctor', 'Ok', (('lit', n_),)), st)]
+            return [Out('val', ('ctor', 'Err', (('unk', 'ParseIntError'),)), st)]
+    if cal in ('core::str::converts::from_utf8', 'core::str::<impl str>::from_utf8') and len(args) == 1 and args[0][0] == 'lit' and isinstance(args[0][1], bytes):
+        # str::from_utf8(known octets): Ok(the str) exactly when the octets are well-formed UTF-8 (no overlong forms, no surrogates,
+        # nothing above U+10FFFF - the same definition Python's strict decoder implements), Err otherwise
+        try:
+            return [Out('val', ('ctor', 'Ok', (('lit', args[0][1].decode('utf-8')),)), st)]
+        except UnicodeDecodeError:
+            return [Out('val', ('ctor', 'Err', (('unk', 'Utf8Error'),)), st)]
+    if cal == 'core::slice::<impl [T]>::split' and len(args) == 2 and args[0][0] == 'lit' and isinstance(args[0][1], bytes) and args[1][0] in ('closure', 'fn') and len(args[0][1]) <= 512:
+        # slice.split(pred) on known octets: the sub-slices between the elements pred accepts, in order, those elements left out - n
+        # separators give n + 1 pieces, empty ones included (an empty slice gives one empty piece).  The predicate is applied to
+        # every element in order; no model when it does not decide on one.
+        pieces, cur, s, okm = [], [], st, True
+        for x in args[0][1]:
+            outs_ = [o for o in I.apply(args[1], [('lit', x)], node, s)]
+            if len(outs_) != 1 or outs_[0].kind != 'val':
+                okm = False; break
+            ds = I.decide(outs_[0].val, outs_[0].st)
+            if len(ds) != 1:
+                okm = False; break
+            s = ds[0][1]
+            if ds[0][0]:
+                pieces.append(bytes(cur)); cur = []
+            else:
+                cur.append(x)
+        if okm:
+            pieces.append(bytes(cur))
+            return [Out('val', ('vec', tuple(('lit', p_) for p_ in pieces)), s)]
+    if cal == 'core::str::<impl str>::split' and len(args) == 2 and all(a[0] == 'lit' and isinstance(a[1], str) for a in args) and args[1][1]:
+        # str.split(pat) with a known character / non-empty string pattern on a known str: the sub-strings between the
+        # non-overlapping matches found left to right, empty ones included (what Python's str.split(sep) computes for a non-empty sep)
+        return [Out('val', ('vec', tuple(('lit', p_) for p_ in args[0][1].split(args[1][1]))), st)]
+    if cal in ('core::char::methods::<impl char>::to_digit', 'core::char::methods::<impl char>::is_digit') and len(args) == 2 \
+            and ordinal(args[0]) is not None and ordinal(args[0])[0] == 'char' and args[1][0] == 'lit' and isinstance(args[1][1], int) and 2 <= args[1][1] <= 36:
+        # char::to_digit(radix) / is_digit(radix) of a known character: see char_digit
+        d_ = char_digit(ordinal(args[0])[1], args[1][1])
+        if name == 'is_digit':
+            return [Out('val', ('lit', d_ is not None), st)]
+        return [Out('val', ('ctor', 'Some', (('lit', d_),)) if d_ is not None else ('ctor', 'None', ()), st)]
     if name == 'try_from' and len(args) == 1 and args[0][0] == 'lit' and isinstance(args[0][1], int) and not isinstance(args[0][1], bool):
         # checked integer conversion of a known number: Ok(n) when the target type holds it, Err otherwise
         # (std spreads these impls over several modules - core::convert::num, ..::ptr_try_from_impls -: the impl header names the types)
@@ -2782,7 +3078,8 @@ def builtin_summary(I, cal, args, node, st):
         if m_:
             return [Out('val', ('lit', {'8': 1, '16': 2, '32': 4, '64': 8, '128': 16, 'size': 8}[m_.group(1)[1:]]), st)]
     if name in ('is_empty', 'len') and args and args[0][0] == 'lit' and isinstance(args[0][1], (bytes, str)):
-        return [Out('val', ('lit', len(args[0][1]) == 0 if name == 'is_empty' else len(args[0][1])), st)]
+        n_ = len(args[0][1].encode('utf-8') if isinstance(args[0][1], str) else args[0][1])       # (str::len counts octets)
+        return [Out('val', ('lit', n_ == 0 if name == 'is_empty' else n_), st)]
     if name == 'input_len' and 'nom::traits::InputLength' in cal and len(args) == 1 and args[0][0] == 'lit' and isinstance(args[0][1], (bytes, str)):
         # nom's InputLength for &[u8] / &str is `self.len()`: the number of octets
         return [Out('val', ('lit', len(args[0][1].encode('utf-8') if isinstance(args[0][1], str) else args[0][1])), st)]
